@@ -467,6 +467,7 @@ func runCase(c Case, x reporter) {
 	params := make([]blockParam, n)
 	obsA := make([]blockObs, n)
 	flagA := make([]bool, n)
+	receipted := map[string]bool{}
 	qsAt := make([][]namedQuery, n)
 	qA := make([][]qres, n)
 	rcptBytes := make([][][]byte, n) // stored receipts of the valid non-KV txs of block i, in order
@@ -514,16 +515,19 @@ func runCase(c Case, x reporter) {
 				qsAt[i] = buildQueries(i+1, txs, m, contractsUpTo)
 				qA[i] = A.ask(qsAt[i])
 			}
-			// per-block receipt / kv material (for attributing the kvs-not-reset finding and labels)
+			// per-block receipt / kv material (for attributing the kvs-not-reset finding and for
+			// labels). It is taken from what the replica stored, not from the classification
+			// lists: those can be damaged by the known verifier races. A kv tx is executed iff its
+			// payload decodes (its nonce is not checked); any other tx was executed in this block
+			// iff a receipt for its hash exists now and did not exist before.
 			pos := positions(txs[i], o)
 			for j, bt := range txs[i] {
-				if pos[j] != bt.modelOK && bt.from >= 0 {
+				if pos[j] != bt.modelOK && bt.from >= 0 && !flagA[i] {
 					modelMismatch++
 				}
-				if !pos[j] {
-					continue
+				if pos[j] {
+					totalValid++
 				}
-				totalValid++
 				if bt.isKV {
 					if bt.kv != nil {
 						b, _ := rlp.EncodeToBytes(bt.kv)
@@ -531,8 +535,12 @@ func runCase(c Case, x reporter) {
 					}
 					continue
 				}
+				if receipted[string(bt.hash)] {
+					continue
+				}
 				res := A.app.Query(append([]byte{rtypes.QueryType_Receipt}, bt.hash...))
 				if res.Code == gtypes.CodeType_OK {
+					receipted[string(bt.hash)] = true
 					rcptBytes[i] = append(rcptBytes[i], append([]byte{}, res.Data...))
 					var rs etypes.ReceiptForStorage
 					if rlp.DecodeBytes(res.Data, &rs) == nil {
